@@ -9,11 +9,13 @@ package p2p
 //@   ensures[length] 0 <= bytesRead && bytesRead < len(chunk) ==> len(c.receive.unread) == len(chunk) - bytesRead
 //@   ensures[content] 0 <= bytesRead && bytesRead < len(chunk) ==> forall i int :: 0 <= i && i < len(chunk) - bytesRead ==> c.receive.unread[i] == old(chunk[bytesRead + i])
 //@   ensures[nothing] bytesRead >= len(chunk) ==> unchanged(c.receive.unread)
+//@   ensures[keeps] unchanged(c.receive.aead, c.receive.nonce)
 
 // pending bytes are served first, in order, and exactly the served prefix is removed
 //@ func (*EncryptedConn).checkUnread
 //@   ensures[served] old(len(c.receive.unread)) > 0 ==> result1 && result0 == min(len(data), old(len(c.receive.unread))) && len(c.receive.unread) == old(len(c.receive.unread)) - result0
 //@   ensures[none] old(len(c.receive.unread)) == 0 ==> !result1 && result0 == 0 && unchanged(c.receive.unread)
+//@   ensures[keeps] unchanged(c.receive.aead, c.receive.nonce)
 
 // the nonce counter advances by exactly one per frame (a reused nonce would break the AEAD);
 // the fixed 4-byte prefix is untouched
@@ -46,3 +48,24 @@ package p2p
 //@   ensures[overlimit] old(len(s.msgAssembler)) + len(packet.Bytes) > maxMessageSize ==> result1 != nil && len(s.msgAssembler) == 0
 //@   ensures[append] old(len(s.msgAssembler)) + len(packet.Bytes) <= maxMessageSize && !packet.Eof ==> result1 == nil && len(s.msgAssembler) == old(len(s.msgAssembler)) + len(packet.Bytes)
 //@   ensures[eof] old(len(s.msgAssembler)) + len(packet.Bytes) <= maxMessageSize && packet.Eof ==> result1 == nil && len(s.msgAssembler) == 0
+
+// ---- C17: the framing loop ------------------------------------------------------------------------------------
+// Write cuts the data into frames of at most MaxDataSize bytes, in order, without dropping or repeating a
+// byte: at every loop head (bytes reported sent) + (bytes still to send) = (bytes given); a successful call
+// reports exactly the number of bytes given. The nonce advances exactly once per sealed frame.
+//@ func (*EncryptedConn).Write
+//@   loop 1 invariant[progress] n + len(data) == old(len(data)) && n >= 0
+//@   loop 1 invariant[suffix] len(data) > 0 ==> data == old(data)[n:]
+//@   loop 1 invariant[size] dataSize == len(data)
+//@   callsite Seal requires[frame] chunkSize <= crypto.MaxDataSize && chunkSize == len(chunk) && chunk == old(data)[n:n+chunkSize]
+//@   ensures[all] isnil(err) && old(c.send.aead) != nil ==> n == old(len(data))
+// Read never hands out more than one decrypted chunk, never more than the buffer holds, delivers nothing
+// when the frame does not open (and then leaves the nonce alone), rejects a length header above
+// MaxDataSize before slicing, and keeps the unserved remainder of the chunk for the next call.
+//@ func (*EncryptedConn).Read
+//@   requires[wired] c != nil && !isnil(c.conn) && (!isnil(c.receive.aead) ==> c.receive.nonce != nil)
+//@   nopanic
+//@   callsite incrementNonce requires[afteropen] isnil(er)
+//@   callsite holdUnread requires[remainder] callee.bytesRead == min(len(data), chunkLength) && len(callee.chunk) == chunkLength && chunkLength <= crypto.MaxDataSize
+//@   ensures[bounded] old(c.receive.aead) != nil ==> 0 <= n && n <= len(data)
+//@   ensures[nodata] old(c.receive.aead) != nil && !isnil(err) ==> n == 0
